@@ -5,7 +5,7 @@
     (step.c scanning primitives), over Map/MapModel.v (C10) and Xlat/Step.v (C02). *)
 From Coq Require Import NArith ZArith List Bool Lia.
 From KdV Require Import Base.Wrap64 Map.MapModel Map.MapSpec Xlat.Step Xlat.ArchSpec
-  Sys.LayoutModel Sys.LayoutSpec Sys.LayoutProofs Sys.LayoutArchModel Sys.LayoutArchProofs Sys.ScanModel Sys.ScanProofs Sys.LinuxX86Model Sys.LinuxX86Proofs Sys.LinuxX86Region Xlat.WalkProofs Xlat.FmtX86.
+  Sys.LayoutModel Sys.LayoutSpec Sys.LayoutProofs Sys.LayoutArchModel Sys.LayoutArchProofs Sys.ScanModel Sys.ScanProofs Sys.LinuxX86Model Sys.LinuxX86Proofs Sys.LinuxX86Region Sys.LinuxRvA64Model Sys.LinuxRvA64Proofs Xlat.WalkProofs Xlat.FmtX86.
 Import ListNotations.
 Local Open Scope N_scope.
 
@@ -342,6 +342,44 @@ Theorem C08_x86_64_linux_ktext_agree_partial : forall koff a p v q,
 Proof. exact ktext_linear_agrees. Qed.
 Print Assumptions C08_x86_64_linux_ktext_agree_partial.
 
+(** * riscv64 and aarch64 Linux set-up decisions (models Sys/LinuxRvA64Model.v,
+      compared with riscv64.c / aarch64.c on every synthesised image)
+
+    Partial: decision level.  What a successful [add_linux_linear_map] has seen
+    in the page tables; the meaning of the scans' answers is C08_scan_specs, the
+    maps [install_linear] sets are C08_linear_directmap_layout_partial. *)
+
+(** riscv64: the region starts at the lowest address the kernel page table maps
+    at or above PAGE_OFFSET, the direct method gets the offset the page table
+    gives that address, the region ends where [highest_linear] with that offset
+    says, the reverse region is the image of the forward one *)
+Theorem C08_riscv64_linux_linear_witness_partial : forall img hl_fuel s s',
+  num_PAGE_OFFSET img <> CbErr OK ->
+  rv_add_linux_linear_map img hl_fuel s = (O_ST OK, s') ->
+  exists po st first last,
+    num_PAGE_OFFSET img = CbOk po /\
+    s_lowest_mapped img s po MAXA = (OK, st, first) /\
+    s_highest_linear img hl_fuel s first MAXA (wsub (s_base st) first) = (OK, last) /\
+    install_linear s first last (wsub (s_base st) first)
+      (wadd first (wsub (s_base st) first)) (wadd last (wsub (s_base st) first)) = (O_ST OK, s').
+Proof. exact rv_linear_map_witness. Qed.
+Print Assumptions C08_riscv64_linux_linear_witness_partial.
+
+(** aarch64: the region is [lowest mapped, highest mapped] in the half of the
+    kernel range that [linux_page_offset] chooses, both ends have the same
+    virtual-to-physical offset, which the direct method gets; the reverse
+    region is [phys(first), phys(last)] *)
+Theorem C08_aarch64_linux_linear_witness_partial : forall img vb s s',
+  a64_add_linux_linear_map img vb s = (O_ST OK, s') ->
+  exists po st first st2 last,
+    a64_linux_page_offset img vb = (OK, po) /\
+    s_lowest_mapped img s po (N.lor po (ADDR_MASK (vb - 1))) = (OK, st, first) /\
+    s_highest_mapped img s (N.lor po (ADDR_MASK (vb - 1))) first = (OK, st2, last) /\
+    wsub (s_base st2) (s_base st) = wsub last first /\
+    install_linear s first last (wsub (s_base st) first) (s_base st) (s_base st2) = (O_ST OK, s').
+Proof. exact a64_linear_map_witness. Qed.
+Print Assumptions C08_aarch64_linux_linear_witness_partial.
+
 (** the hypotheses are satisfiable: the x86-64 Linux 2.6.31 direct mapping *)
 Example C08_nonvacuous_layout :
   let r := {| r_first := 0xffff880000000000; r_last := 0xffffc7ffffffffff;
@@ -377,11 +415,13 @@ Definition ex_raw (a : aspace) (x : N) : rdres :=
   end.
 Definition ex_img : image :=
   {| i_os := OS_LINUX; i_version := None; i_phys_base := None; i_rootpgt := Some (MACHPHYSADDR, 0x1000);
-     i_virt_bits := Some 48; i_xen_xlat := None;
+     i_virt_bits := Some 48; i_xen_xlat := None; i_page_shift := None;
      sym_init_top_pgt := CbErr NODATA; sym_init_level4_pgt := CbErr NODATA;
      sym_stext := CbOk 0xffffffff81000000; sym_text := CbErr NODATA; sym_page_offset_base := CbErr NODATA;
      reg_cr3 := CbErr NODATA; reg_cr4 := CbErr NODATA; num_sme_mask := CbErr NODATA;
      num_pgtable_l5_enabled := CbErr NODATA;
+     sym_swapper_pg_dir := CbErr NODATA; num_va_kernel_pa_offset := CbErr NODATA; num_PAGE_OFFSET := CbErr NODATA;
+     num_VA_BITS := CbErr NODATA; num_kimage_voffset := CbErr NODATA; num_TCR_EL1_T1SZ := CbErr NODATA;
      caps_kphys := false; caps_machphys := true; caps_kv := false; raw := ex_raw |}.
 
 Example C08_nonvacuous_x86_64_linux :
